@@ -139,6 +139,13 @@ def opts : Opts := ⟨true, true⟩
 def encodeValue (o : Opts) (nameLen : Nat) (value : Bytes) : Bytes :=
   (hvWords o ⟨[], nameLen + 2, 0, false⟩ [] (splitInclusive [] value)).flushSpaces.bytes
 
+/-- `ContentType::display` (after `fix:` b49469c): a structured field — a printable-ASCII media type is only folded (no
+    encoded-word guard: `=?…?=` inside a quoted parameter is literal text to its readers); anything else goes through
+    `HeaderValue::new` as before. The field name has 12 octets. -/
+def contentTypeValue (raw : Bytes) : Bytes :=
+  if raw.all (allowedChar true) then (foldWrite ⟨[], 12 + 2, 0, false⟩ raw).flushSpaces.bytes
+  else encodeValue opts 12 raw
+
 /-- `HeaderName::new_from_ascii`: `strict` = visible ASCII except ':' (the repaired check);
     otherwise non-empty, at most 76 octets, ASCII, without ':' and ' ' -/
 def nameOk (strict : Bool) (n : Bytes) : Bool :=
